@@ -54,7 +54,7 @@ def mkResp (res : Except Stop (List (Option Bytes))) (impl : Sexp) (spec : List 
 /-- `(probe xCarrier xRule <value>)`: the single (rule, value) pair a case is about. Gives the
 verdict the property demands (`some true` = violated) and the scope tag. -/
 def probeSpec (carrier rule : Bytes) (v : GoVal) : Option Bool × String :=
-  let kfScope := if carrier == b "map-iface" then "kf:F-C03-c" else "in"
+  let kfScope := if carrier == b! "map-iface" then "kf:F-C03-c" else "in"
   match PGV.Spec.Size.readRule rule with
   | some _ =>
     match PGV.Spec.Size.violated rule v with
